@@ -925,7 +925,7 @@ def _meta_exact(ctx, repo, meta, mod, gp, sp):
                 src = vals[-1] if vals else src
             from_attr = isinstance(src, ast.Call) and astq.call_name(src) == "getattr" and len(src.args) >= 2 \
                 and dotted(src.args[0]) == "self" and dotted(src.args[1]) == "attr"
-            used = any(isinstance(x, ast.Compare) and len(x.ops) == 1 and isinstance(x.ops[0], ast.In) and dotted(x.comparators[0]) == first
+            used = any(isinstance(x, ast.Compare) and len(x.ops) == 1 and isinstance(x.ops[0], (ast.In, ast.NotIn)) and dotted(x.comparators[0]) == first
                        for x in astq.walk_no_nested(sp))
             if used:
                 src_ok = from_attr
